@@ -21,6 +21,11 @@ Theorem C04_edge_endpoints_are_read_introns : forall reads ops s, run (init read
 Proof. exact edge_endpoints_are_read_introns. Qed.
 Print Assumptions C04_edge_endpoints_are_read_introns.
 
+Theorem C04_classified_are_read_introns : forall reads ops s, run (init reads) ops = Some s ->
+  forall v, In v (vert s ++ keys (smap s) ++ disc s) -> exists r, In r (collected reads) /\ In v r.
+Proof. exact classified_are_read_introns. Qed.
+Print Assumptions C04_classified_are_read_introns.
+
 (* after simplify_correction_map every substitute is a current vertex *)
 Theorem C04_substitutes_are_vertices : forall reads ops s, run (init reads) (ops ++ [SimplifyMap]) = Some s ->
   forall k v, In (k, v) (smap s) -> In v (vert s).
